@@ -37,6 +37,7 @@ int_t dParseIntFormat(char *buf, int_t *num, int_t *size)
     tmp = buf;
     while (*tmp++ != '(') ;
     *num = atoi(tmp);
+    if (*num == 0) *num = 1; /* omitted repeat count, as in (I8) */
     while (*tmp != 'I' && *tmp != 'i') ++tmp;
     ++tmp;
     *size = atoi(tmp);
@@ -56,11 +57,13 @@ int_t dParseFloatFormat(char *buf, int_t *num, int_t *size)
            num picked up refers to P, which should be skipped. */
         if (*tmp=='p' || *tmp=='P') {
            ++tmp;
+           if (*tmp == ',') ++tmp; /* (1P,5E16.8) is the standard spelling */
            *num = atoi(tmp); /*sscanf(tmp, "%d", num);*/
         } else {
            ++tmp;
         }
     }
+    if (*num == 0) *num = 1; /* omitted repeat count, as in (E16.8) */
     ++tmp;
     period = tmp;
     while (*period != '.' && *period != ')') ++period ;
